@@ -131,7 +131,8 @@ CHECKS["C09"] = ("model_checking",
     "servers built per small_body_len; handler calls (body variant, length, digest), interim and final status codes, "
     "bytes copied to disk (hook) must match the machine's observables.",
     "Trusted: TLC, hooks, 31-bit digests. Lengths above 70002 are only declared, never sent. With no cache directory "
-    "413 or 500 is accepted (free zone).", "4 C09")
+    "413 or 500 is accepted (free zone). Bodies of pipelined wires (half of them read through HttpConn) are compared with "
+    "what was sent (Framing's body clause on pipeline-gen); Request::recv_body is swept over its boundary table.", "4 C09")
 CHECKS["C10"] = ("fault_enumeration",
     "Exchange.tla NoLeak invariant model-checked at every step of the multi-step upload (incl. disk-write failure, "
     "removed cache dir, client reset); upload fault enumeration against a real server with the cache directory listed "
@@ -140,7 +141,9 @@ CHECKS["C10"] = ("fault_enumeration",
     "cache dir x 1..4 concurrent uploads; after the hook log shows ConnEnd for every connection of a batch the cache "
     "directory must be empty. The model covers the same crash points plus disk-write failure.",
     "Trusted: hook H5 (ConnEnd emitted by a drop guard after the request and its temp file are dropped). Disk-write "
-    "failure is covered by the model only.", "4 C10")
+    "failure is provoked on the real server in a child process (RLIMIT_FSIZE); further faults provoked on the real server: a "
+    "handler pool with no free thread, a failing 100 Continue (connection reset before the upload is invited), handlers that "
+    "keep a clone of the request; exchange-gen's directory listings after pipelined histories are judged too.", "4 C10")
 
 CHECKS["C12"] = ("model_checking",
     "TLA+ ServerSteps.tla (one step function per hook event: accept loop pc, token set, permit, connections) model-checked "
@@ -212,8 +215,9 @@ CHECKS["C16"] = ("model_checking",
     "thorough) checking both closed forms agree. The real code is swept exhaustively over all 2 932 897 days x 7 "
     "seconds-of-day (losslessly run-length encoded into ~96k Month events, tiling checked), every second of 14 days, "
     "3000 instants through the three rendering users, and ~190k additions; every event is judged by Calendar.tla.",
-    "Trusted: TLC; the RLE is lossless (a run is extended only when the code's own outputs continue it). Log file "
-    "names (SystemTime::now) are not covered; log lines up to 2553.", "4 C16")
+    "Trusted: TLC; the RLE is lossless (a run is extended only when the code's own outputs continue it). The stamp "
+    "in a log file's name can only be made for the current instant: 12 files are created per run and their stamps compared "
+    "with the clock read before and after (Calendar!FileNameOk); log lines up to 2553.", "4 C16")
 CHECKS["C17"] = ("model_checking",
     "RFC 8259 recogniser/decoder over code points in TLA+ (LogJson.tla), round-trip model-checked against an "
     "independent encoder; every Unicode scalar and generated log lines rendered by the real code and read back by TLC",
